@@ -881,7 +881,7 @@ def case(ctx, rng, idx, state):
 if __name__ == "__main__":
     harness.main(
         PROP, "exploration", case, setup_fn=setup,
-        tiers=dict(quick=dict(cases=1200, shards=8, time=100), thorough=dict(cases=60000, shards=16, time=1000)),
+        tiers=dict(quick=dict(cases=1200, shards=8, time=900), thorough=dict(cases=60000, shards=16, time=3000)),
         rule="random EnergyResult (0-3 energy axes of 1-5 points, rank 0-4, real/complex, amplitude 1e-3..1e3, "
              "Void/FermiDirac/Gaussian smoothers), KBandResult / K__Result (1-5 k, 1-4 bands, rank 0-4), ResultDict "
              "(1-4 keys, nested, Void values), TABresult, VoidResult; scalars python int/float/bool, numpy float64/"
